@@ -160,40 +160,63 @@ namespace Pg.Sym
 
 theorem listReplace_ok (f : Forest) (m : Meta) (its : Items) (index : Int) (pos : Nat) (old : Tree) (ve : VE)
     (hf : f.ok = true) (hits : okItems m.id m.path its = true) (hold : getKey its (Key.i pos) = some old) :
-    (listReplace Cfg.patched f m index pos old ve).ok = true := by
-  unfold listReplace
-  have hv := evalVE_spec Cfg.patched none ve f (some m.id) false m.part (m.path ++ [Key.i index]) hf
-  apply addRoot_ok
-  · apply mapAt_ok _ m.id _ _ (ok_of_subset hf hv.2)
-    simp only [Cfg.patched, if_true]
-    exact storeKey_local m.id _ _ _ (by rw [okSub_iff_okAt]; exact hv.1)
-  · exact detachFrom_ok .list (getKey_ok hits hold)
+    ∀ g, listReplace Cfg.patched f m index pos old ve = some g → g.ok = true := by
+  intro g hg
+  unfold listReplace at hg
+  simp only at hg
+  split at hg
+  · cases hg
+  · cases hg
+    have hv := evalVE_spec Cfg.patched none ve f (some m.id) false m.part (m.path ++ [Key.i index]) hf
+    apply addRoot_ok
+    · apply mapAt_ok _ m.id _ _ (ok_of_subset hf hv.2)
+      simp only [Cfg.patched, if_true]
+      exact storeKey_local m.id _ _ _ (by rw [okSub_iff_okAt]; exact hv.1)
+    · exact detachFrom_ok .list (getKey_ok hits hold)
 
 theorem listInsert_ok (f : Forest) (m : Meta) (its : Items) (index : Int) (len : Nat) (ve : VE) (hf : f.ok = true) :
-    (listInsert Cfg.patched f m its index len ve).ok = true := by
-  unfold listInsert
-  simp only [Cfg.patched, if_true]
-  split
+    ∀ g, listInsert Cfg.patched f m its index len ve = some g → g.ok = true := by
+  intro g hg
+  unfold listInsert at hg
+  simp only [Cfg.patched, if_true] at hg
+  split at hg
   · next own _ =>
-    apply mapAt_ok _ m.id _ _ (ok_of_subset hf (fun x hx => hx))
-    exact insert_local m.id _ _ _ (by rw [okSub_iff_okAt]; exact clone_okAt _ _ _ _ _ _)
-  · have hv := evalVE_spec Cfg.patched none ve f (some m.id) false m.part (m.path ++ [Key.i index]) hf
-    apply mapAt_ok _ m.id _ _ (ok_of_subset hf hv.2)
-    exact insert_local m.id _ _ _ (by rw [okSub_iff_okAt]; exact hv.1)
+    split at hg
+    · cases hg
+    · cases hg
+      apply mapAt_ok _ m.id _ _ (ok_of_subset hf (fun x hx => hx))
+      exact insert_local m.id _ _ _ (by rw [okSub_iff_okAt]; exact clone_okAt _ _ _ _ _ _)
+  · split at hg
+    · cases hg
+    · cases hg
+      have hv := evalVE_spec Cfg.patched none ve f (some m.id) false m.part (m.path ++ [Key.i index]) hf
+      apply mapAt_ok _ m.id _ _ (ok_of_subset hf hv.2)
+      exact insert_local m.id _ _ _ (by rw [okSub_iff_okAt]; exact hv.1)
 
 theorem listAppend_ok (f : Forest) (m : Meta) (index : Int) (ve : VE) (hf : f.ok = true) :
-    (listAppend Cfg.patched f m index ve).ok = true := by
-  unfold listAppend
-  have hv := evalVE_spec Cfg.patched none ve f (some m.id) false m.part (m.path ++ [Key.i index]) hf
-  apply mapAt_ok _ m.id _ _ (ok_of_subset hf hv.2)
-  exact append_local m.id _ _ _ (by rw [okSub_iff_okAt]; exact hv.1)
+    ∀ g, listAppend Cfg.patched f m index ve = some g → g.ok = true := by
+  intro g hg
+  unfold listAppend at hg
+  simp only at hg
+  split at hg
+  · cases hg
+  · cases hg
+    have hv := evalVE_spec Cfg.patched none ve f (some m.id) false m.part (m.path ++ [Key.i index]) hf
+    apply mapAt_ok _ m.id _ _ (ok_of_subset hf hv.2)
+    exact append_local m.id _ _ _ (by rw [okSub_iff_okAt]; exact hv.1)
+
+theorem okOrCycle_ok {o : Option Forest} {r : Forest × Bool} (h : okOrCycle o = .ok r) : o = some r.1 ∧ r.2 = true := by
+  cases o with
+  | none => simp [okOrCycle] at h
+  | some g => simp only [okOrCycle, Except.ok.injEq] at h; subst h; exact ⟨rfl, rfl⟩
 
 theorem rawSetList_cases (cfg : Cfg) (f : Forest) (m : Meta) (its : Items) (key : Int) (ins : Bool) (ve : VE) :
     ∀ r, rawSetList cfg f m its key ins ve = .ok r →
       r = (f, false) ∨
-      (∃ (index : Int) (pos : Nat) (old : Tree), getKey its (Key.i pos) = some old ∧ r = (listReplace cfg f m index pos old ve, true)) ∨
-      (∃ index len, r = (listInsert cfg f m its index len ve, true)) ∨
-      (∃ index, r = (listAppend cfg f m index ve, true)) := by
+      (∃ (index : Int) (pos : Nat) (old : Tree), getKey its (Key.i pos) = some old ∧
+        listReplace cfg f m index pos old ve = some r.1) ∨
+      (∃ index len, listInsert cfg f m its index len ve = some r.1) ∨
+      (∃ index, listAppend cfg f m index ve = some r.1) := by
   intro r hr
   unfold rawSetList at hr
   simp only at hr
@@ -215,29 +238,34 @@ theorem rawSetList_cases (cfg : Cfg) (f : Forest) (m : Meta) (its : Items) (key 
       · rw [if_neg h4] at hr
         by_cases h6 : (m.typed && !acceptsTyped f ve) = true
         · rw [if_pos h6] at hr; cases hr
-        · rw [if_neg h6] at hr; right; left; cases hr; exact ⟨_, _, old, hold, rfl⟩
+        · rw [if_neg h6] at hr; right; left; exact ⟨_, _, old, hold, (okOrCycle_ok hr).1⟩
   rw [if_neg h2] at hr
   by_cases h7 : (m.typed && !acceptsTyped f ve) = true
   · rw [if_pos h7] at hr; cases hr
   rw [if_neg h7] at hr
   by_cases h5 : idx < (its.length : Int)
-  · rw [if_pos h5] at hr; right; right; left; cases hr; exact ⟨_, _, rfl⟩
-  · rw [if_neg h5] at hr; right; right; right; cases hr; exact ⟨_, rfl⟩
+  · rw [if_pos h5] at hr; right; right; left; exact ⟨_, _, (okOrCycle_ok hr).1⟩
+  · rw [if_neg h5] at hr; right; right; right; exact ⟨_, (okOrCycle_ok hr).1⟩
 
 theorem rawSetList_ok (f : Forest) (m : Meta) (its : Items) (key : Int) (ins : Bool) (ve : VE)
     (hf : f.ok = true) (hits : okItems m.id m.path its = true) :
     ∀ r, rawSetList Cfg.patched f m its key ins ve = .ok r → r.1.ok = true := by
   intro r hr
-  rcases rawSetList_cases Cfg.patched f m its key ins ve r hr with rfl | ⟨i, p, old, hold, rfl⟩ | ⟨i, l, rfl⟩ | ⟨i, rfl⟩
+  rcases rawSetList_cases Cfg.patched f m its key ins ve r hr with rfl | ⟨i, p, old, hold, h⟩ | ⟨i, l, h⟩ | ⟨i, h⟩
   · exact hf
-  · exact listReplace_ok f m its i p old ve hf hits hold
-  · exact listInsert_ok f m its i l ve hf
-  · exact listAppend_ok f m i ve hf
+  · exact listReplace_ok f m its i p old ve hf hits hold _ h
+  · exact listInsert_ok f m its i l ve hf _ h
+  · exact listAppend_ok f m i ve hf _ h
 
 theorem dictStore_ok (f : Forest) (m : Meta) (its : Items) (key : Key) (ve : VE)
     (hf : f.ok = true) (hits : okItems m.id m.path its = true) :
-    (dictStore Cfg.patched f m its key ve).ok = true := by
-  unfold dictStore
+    ∀ g, dictStore Cfg.patched f m its key ve = some g → g.ok = true := by
+  intro g hg
+  unfold dictStore at hg
+  simp only at hg
+  split at hg
+  · cases hg
+  cases hg
   have hf0 : ({ f with consumed := false } : Forest).ok = true := hf
   have hv := evalVE_spec Cfg.patched ((dictDetached its key).bind Tree.id?) ve { f with consumed := false } (some m.id)
     (isObjKind m.kind) m.part (m.path ++ [key]) hf0
@@ -248,27 +276,36 @@ theorem dictStore_ok (f : Forest) (m : Meta) (its : Items) (key : Key) (ve : VE)
       (isObjKind m.kind) m.part (m.path ++ [key]) ve).2))).ok = true := by
     apply mapAt_ok _ m.id _ _ (ok_of_subset hf0 hv.2)
     exact storeKey_local m.id _ _ _ (by rw [okSub_iff_okAt]; exact adopt_okAt _ _ _ _ _ hv.1)
-  simp only
   split
   · exact h3
   · exact addRoots_ok _ _ h3 (dictDetached_ok hits)
+
+theorem rawSetDict_cases (cfg : Cfg) (f : Forest) (m : Meta) (its : Items) (key : Key) (ve : VE) :
+    ∀ r, rawSetDict cfg f m its key ve = .ok r →
+      r = (f, false) ∨ r = (dictErase f m its key, true) ∨
+      dictStore cfg f m its key (if ve.isMissing then VE.atom .none else ve) = some r.1 := by
+  intro r hr
+  unfold rawSetDict at hr
+  split at hr
+  · cases hr; exact Or.inl rfl
+  split at hr
+  · cases hr; exact Or.inl rfl
+  split at hr
+  · cases hr
+  split at hr
+  · split at hr
+    · cases hr; exact Or.inr (Or.inl rfl)
+    · cases hr; exact Or.inl rfl
+  · exact Or.inr (Or.inr (okOrCycle_ok hr).1)
 
 theorem rawSetDict_ok (f : Forest) (m : Meta) (its : Items) (key : Key) (ve : VE)
     (hf : f.ok = true) (hits : okItems m.id m.path its = true) :
     ∀ r, rawSetDict Cfg.patched f m its key ve = .ok r → r.1.ok = true := by
   intro r hr
-  unfold rawSetDict at hr
-  split at hr
-  · cases hr; exact hf
-  split at hr
-  · cases hr; exact hf
-  split at hr
-  · cases hr
-  split at hr
-  · split at hr
-    · cases hr; exact dictErase_ok f m its key hf hits
-    · cases hr; exact hf
-  · cases hr; exact dictStore_ok f m its key _ hf hits
+  rcases rawSetDict_cases Cfg.patched f m its key ve r hr with rfl | rfl | h
+  · exact hf
+  · exact dictErase_ok f m its key hf hits
+  · exact dictStore_ok f m its key _ hf hits _ h
 
 theorem rawSet_ok (f : Forest) (t : Nat) (key : Key) (ins : Bool) (ve : VE) (hf : f.ok = true) :
     ∀ r, rawSet Cfg.patched f t key ins ve = .ok r → r.1.ok = true := by
